@@ -66,6 +66,11 @@ package ocidir
 // put completes it): manifest file renamed into place, index updated, referrers recorded. The
 // $put... ghosts are written only by the on-call hooks below, i.e. by calls made directly in this
 // function's body (not by the nested put of the referrers index).
+//   "never through a state in which the name is absent": the put path replaces a file by renaming
+//   a complete temp file over it; it never unlinks the name it is about to install ($putUnlinked:
+//   what this call removed so far, "" = nothing).
+//@   entry-assume $putUnlinked == ""
+//@   on-call Remove: $putUnlinked = arg0
 //@   on-call Rename: $putRenamed = (result == nil)
 //@   on-call Rename: $putRenamedTo = arg1
 //@   on-call updateIndex: $putIndexed = (result == nil)
@@ -74,6 +79,7 @@ package ocidir
 //@   ensures success-means-index-updated: err == nil ==> $putIndexed
 //@   ensures success-means-referrer-recorded: err == nil && ok && $ret(GetSubject, 1) == nil && mDesc != nil && mDesc.Digest != "" ==> $putReferrers
 //@ ghost $putRenamed bool
+//@ ghost $putUnlinked string
 //@ ghost $putRenamedTo string
 //@ ghost $putIndexed bool
 //@ ghost $putReferrers bool
@@ -312,3 +318,13 @@ package ocidir
 //@   in ~/scheme/ocidir
 //@   infunc OCIDir\)\.TagList$
 //@   requires a-listed-name-is-the-tag-behind-the-last-colon: len(add) == 1 && !$hasColon(add[0]) && $endsInTag(caller.desc.Annotations[aOCIRefName], add[0])
+
+// C07 replace-by-rename in the put paths (manifestPut, BlobPut): the name a temp file is renamed to
+// was not unlinked by the same call beforehand (unlink + rename leaves a window in which every
+// other tag or index that names the digest resolves to a missing file).
+//@ callsite os.Rename(oldpath, newpath)
+//@   prop C07
+//@   name os.Rename/no-unlink-first
+//@   in ~/scheme/ocidir
+//@   infunc \)\.manifestPut$
+//@   requires target-not-unlinked-first: $putUnlinked == "" || $putUnlinked != newpath
